@@ -114,7 +114,70 @@ def run_c16(ctx):
                 summary="%d sessions, %d evals" % (r["sessions"], r["evals"]), infra_error=vac)
 
 
+# ------------------------------------------------------------------------------------------- C10 / C17 / C18
+def run_c10(ctx):
+    r = run_engine(ctx, "mc_bounds", ["--mode", "c10"])
+    if "infra_error" in r:
+        return _infra("model_checking", r)
+    need = {"OP_COUNT", "STACK_SIZE", "PUBKEY_COUNT", "OK", "REFUSED", "UNKNOWN_ERROR"}
+    missing = sorted(need - set(r["outcomes"].keys()))
+    cov = {
+        "states": r["prefixes"] + r["whole_sessions"], "transitions": r["transitions"] + r["whole_sessions"], "traces_validated_against_impl": r["sessions"],
+        "samples": r["samples"] or ["(none)"], "exhaustive": True,
+        "bounds": ["%d constructed boundary states (op count 199..202 via NOPs / unexecuted branches / multisig key counts 0..21, stack+altstack 998..1000 via DUP chains and altstack splits, initial stacks of 999/1000, numeric operands of 4/5/6 bytes) x {BASE, WITNESS_V0, TAPSCRIPT}; every one of %d symbols applied from each" % (r["prefixes"], r["symbols"]),
+                   "whole-session cases: scripts of 9999/10000/10001 bytes x 3 sigversions, successor scriptPubKey of 10000/10001 bytes, op-count reset across scriptSig -> scriptPubKey -> P2SH redeem script at 201/202"],
+        "outcome_histogram": r["outcomes"], "distinct_outcomes": len(r["outcomes"]),
+    }
+    return dict(level="model_checking", coverage=cov, violations=r["violations"],
+                assumptions=["reference interpreter decides the expected outcome at each boundary", "symbols that only re-trigger C01's listed findings (OP_CHECKSIGADD refused, OP_SUCCESSx in tapscript) are left to C01",
+                             "a 521-byte push is accepted as failing whether it is refused at parse time or fails with PUSH_SIZE (the tool refuses it)"],
+                summary="%d boundary states, %d transitions" % (r["prefixes"], r["transitions"]),
+                infra_error=("vacuous: outcomes never observed: %s" % missing) if missing else None)
+
+
+def run_c17(ctx):
+    r = run_engine(ctx, "mc_bounds", ["--mode", "c17"])
+    if "infra_error" in r:
+        return _infra("model_checking", r)
+    c = r["classes"]
+    cov = {
+        "states": r["cases"], "transitions": r["cases"], "traces_validated_against_impl": c.get("must-compute", 0) + c.get("must-fail", 0) + c.get("disabled", 0) + c.get("unexecuted-enabled", 0) + c.get("fail-or-denoted", 0),
+        "samples": r["samples"] or ["(none)"], "exhaustive": True,
+        "bounds": ["15 opcodes x every operand tuple over %d boundary values (pairs; SUBSTR/LEFT/RIGHT offsets over a 12-value offset set), with and without --allow-disabled-opcodes, executed and inside an unexecuted branch; each case in a crash-contained worker" % r["values"]],
+        "case_classes": c,
+    }
+    vac = None
+    if c.get("must-compute", 0) < 100 or c.get("must-fail", 0) < 100 or c.get("disabled", 0) < 100:
+        vac = "vacuous exploration: %s" % c
+    return dict(level="model_checking", coverage=cov, violations=r["violations"],
+                assumptions=["denotations: CAT concatenation; SUBSTR/LEFT/RIGHT slices, script error when out of range or negative; INVERT/AND/OR/XOR bytewise (equal lengths); 2MUL/2DIV/MUL/DIV/MOD on script numbers, truncation toward zero, minimal re-encoding; division/modulo by zero is a script error; LSHIFT/RSHIFT = x2^b / floor-div 2^b compared for a >= 0 and 0 <= b < 32",
+                             "where the property is silent (5-byte numeric operands, negative or >= 32 shift counts, negative shift base) only crash-freedom is required ('no-crash-only' class)",
+                             "which script error is reported is not compared (the property only asks for 'a script error')",
+                             "run on the plain build: a crash is a terminating signal; undefined behaviour that does not trap is C15's business (sanitizer builds)"],
+                summary="%d cases" % r["cases"], infra_error=vac)
+
+
+def run_c18(ctx):
+    r = run_engine(ctx, "mc_bounds", ["--mode", "c18"])
+    if "infra_error" in r:
+        return _infra("model_checking", r)
+    cov = {
+        "states": r["strings"] + r["integers"], "transitions": r["strings"] * 3 + r["integers"] * 5, "traces_validated_against_impl": r["strings"] + r["integers"],
+        "samples": r["samples"], "exhaustive": True,
+        "bounds": ["all byte strings of length 0..3 (16,843,009)", "length 4: " + ("all 2^32 strings" if r["full_4_byte_space"] else "{00,01,7f,80,ff}^3 x all 256 top bytes (the thorough tier enumerates all 2^32)"),
+                   "length 5 with a 5-byte limit: {00,01,7f,80,ff}^4 x all 256 top bytes", "integers: every n in [-2^16, 2^16], +-2^k+d for k<63, |d|<=3, INT64 extremes",
+                   "per string: decode value, minimality verdict (constructor with fRequireMinimal), re-encode; per integer: serialize, round trip, Value(int).hex_str(), decimal literal, Value(0x..).int_value()"],
+        "byte_strings": r["strings"], "of_which_minimal": r["minimal_strings"], "integers": r["integers"],
+    }
+    return dict(level="model_checking", coverage=cov, violations=r["violations"],
+                assumptions=["oracle: arithmetic definition of the sign-magnitude little-endian codec in ref/refnum.hpp"],
+                summary="%d strings, %d integers" % (r["strings"], r["integers"]))
+
+
 PROPS = {
+    "C10": dict(targets=["mc_bounds"], run=run_c10, replay=replay_engine("mc_bounds")),
+    "C17": dict(targets=["mc_bounds"], run=run_c17, replay=replay_engine("mc_bounds")),
+    "C18": dict(targets=["mc_bounds"], run=run_c18, replay=replay_engine("mc_bounds")),
     "C04": dict(targets=["mc_hist"], run=run_c04, replay=replay_engine("mc_hist")),
     "C16": dict(targets=["mc_hist"], run=run_c16, replay=replay_engine("mc_hist")),
     "C01": dict(targets=["mc_script"], run=run_c01, replay=replay_engine("mc_script")),
